@@ -15,12 +15,14 @@ import (
 // ---------------------------------------------------------------------------
 
 func C08(ctx *core.Ctx, r *core.Report) {
-	r.Explanation = "Structural conditions of addressing, decided on all paths: what the path parser decodes (segment names and every key, with url.QueryUnescape) the renderers (Path.toBuffer, EncodeKey) encode with the inverse escaper, once per key; after the leading ../ steps Find parses what is left, against the schema node those steps lead to; an unknown name yields an error wrapping fc.NotFoundError and the shape errors wrap fc.BadRequestError; both requests issued per segment carry the navigation target; path segment equality compares the names. Crash sites on user segments are decided under C13. Not decided: that the selection found is the addressed node, key conversion per type, module-qualified lookup semantics."
+	r.Explanation = "Structural conditions of addressing, decided on all paths: what the path parser decodes (segment names and every key, with url.QueryUnescape) the renderers (Path.toBuffer, EncodeKey) encode with the inverse escaper, once per key; after the leading ../ steps Find parses what is left, against the schema node those steps lead to; an unknown name yields an error wrapping fc.NotFoundError and the shape errors wrap fc.BadRequestError; both requests issued per segment carry the navigation target; path segment equality compares the names. Every registered read filter lets navigation requests through (so a constrained Find reaches nodes the filter would hide from a read). Crash sites on user segments are decided under C13. Not decided: that the selection found is the addressed node, key conversion per type, module-qualified lookup semantics."
 	c08Codec(ctx, r)
 	c08Relative(ctx, r)
 	c08ErrorIdentity(ctx, r)
 	c08NavigationTarget(ctx, r)
 	c08SegmentEquality(ctx, r)
+	// Find walks with requests marked as navigation; every read filter lets those through
+	c07NavigationExempt(ctx, r, registeredConstraints(ctx, r))
 }
 
 func callsByName(f *ssa.Function, name string) []ssa.CallInstruction {
